@@ -249,21 +249,26 @@ func minimize(t *testing.T, def *CheckDef, tier string, seed int64, orig RunResu
 
 // WorkerSummary is what a worker process writes for the orchestrator.
 type WorkerSummary struct {
-	Prop        string           `json:"prop"`
-	Tier        string           `json:"tier"`
-	Runs        int              `json:"runs"`
-	NonTrivial  int              `json:"nontrivial"`
-	Steps       int64            `json:"steps"`
-	SimMs       int64            `json:"sim_ms"`
-	WallMs      int64            `json:"wall_ms"`
-	Stats       map[string]int64 `json:"stats"`
-	States      []string         `json:"states"`
-	SeqHashes   []uint64         `json:"seq_hashes"`
-	Samples     []any            `json:"samples"`
-	Violations  []RunResult      `json:"violations"`
-	Inconcl     []RunResult      `json:"inconclusive"`
-	Seeds       []int64          `json:"seeds"`
-	StoppedEarly bool            `json:"stopped_early"`
+	Level        string           `json:"level"`
+	Rule         string           `json:"rule"`
+	Assumptions  []string         `json:"assumptions"`
+	Real         []string         `json:"real"`
+	Stub         []string         `json:"stub"`
+	Prop         string           `json:"prop"`
+	Tier         string           `json:"tier"`
+	Runs         int              `json:"runs"`
+	NonTrivial   int              `json:"nontrivial"`
+	Steps        int64            `json:"steps"`
+	SimMs        int64            `json:"sim_ms"`
+	WallMs       int64            `json:"wall_ms"`
+	Stats        map[string]int64 `json:"stats"`
+	States       []string         `json:"states"`
+	SeqHashes    []uint64         `json:"seq_hashes"`
+	Samples      []any            `json:"samples"`
+	Violations   []RunResult      `json:"violations"`
+	Inconcl      []RunResult      `json:"inconclusive"`
+	Seeds        []int64          `json:"seeds"`
+	StoppedEarly bool             `json:"stopped_early"`
 }
 
 func envInt(name string, def int64) int64 {
@@ -352,7 +357,7 @@ func SimMain(t *testing.T) {
 	minBudget := time.Duration(envInt("SIM_MIN_BUDGET_S", 60)) * time.Second
 	maxViol := int(envInt("SIM_MAX_VIOL", 3))
 	t0 := time.Now()
-	sum := WorkerSummary{Prop: prop, Tier: tier, Stats: map[string]int64{}}
+	sum := WorkerSummary{Prop: prop, Tier: tier, Stats: map[string]int64{}, Level: def.Level, Rule: def.Rule, Assumptions: def.Assumptions, Real: def.Real, Stub: def.Stub}
 	states := map[string]struct{}{}
 	hashes := map[uint64]struct{}{}
 	for i := int64(0); i < count; i++ {
